@@ -34,6 +34,12 @@ where
     if serde_json::to_value(&back).unwrap() != *v {
         fail("round trip does not preserve the value");
     }
+    // ... and nothing else refers to it behind the scenes: taking it out again leaves exactly the two handles we hold
+    let taken = back.swap(Arc::new(Value::Null));
+    if !Arc::ptr_eq(&taken, &full) || Arc::strong_count(&full) != 2 {
+        fail("the deserialized value has hidden references (count after taking it out of the container is not the number of handles)");
+    }
+    drop(taken);
     // text encoding as well
     let text = serde_json::to_string(&c).unwrap();
     if text != serde_json::to_string(&*c.load()).unwrap() {
@@ -64,6 +70,13 @@ where
                 fail("deserialized option container holds more than a single reference");
             }
         }
+        let taken = back.swap(None);
+        if let (Some(a), Some(t)) = (&got, &taken) {
+            if !Arc::ptr_eq(a, t) || Arc::strong_count(a) != 2 {
+                fail("the deserialized option value has hidden references (count after taking it out of the container is not the number of handles)");
+            }
+        }
+        drop(taken);
         n += 1;
     }
     n
